@@ -624,6 +624,35 @@ theorem restrictCore_root (t : Topo) (p : Params) (t' : Topo) (h : restrictCore 
       rw [this]; rfl
   · exact absurd h (by simp)
 
+/-! ### the final re-sort of children lists (hwloc__reorder_children_if_needed everywhere) permutes siblings -/
+
+theorem fixOrder_perm (l : List Tree) : (fixOrder l).Perm l := by
+  unfold fixOrder; split
+  · exact reorder_perm l
+  · exact .refl _
+
+theorem reorderAll_perm :
+    (∀ t, (objsT (reorderAllT t)).Perm (objsT t) ∧ (reorderAllT t).obj = t.obj) ∧
+    (∀ l, (objsL (reorderAllL l)).Perm (objsL l)) := by
+  have hnode : ∀ o ns ms ios mis, (objsL (reorderAllL ns)).Perm (objsL ns) → (objsL (reorderAllL ms)).Perm (objsL ms) →
+      ((objsT (reorderAllT (.node o ns ms ios mis))).Perm (objsT (.node o ns ms ios mis)) ∧
+        (reorderAllT (.node o ns ms ios mis)).obj = (Tree.node o ns ms ios mis).obj) := by
+    intro o ns ms ios mis hn _
+    rw [reorderAllT]
+    refine ⟨?_, rfl⟩
+    simp only [objsT]
+    refine List.Perm.cons o ?_
+    exact List.Perm.append_right _ (List.Perm.append_right _ (List.Perm.append_right _
+      ((objsL_perm (fixOrder_perm _)).trans hn)))
+  have hnil : (objsL (reorderAllL [])).Perm (objsL []) := by rw [reorderAllL]
+  have hcons : ∀ t ts, ((objsT (reorderAllT t)).Perm (objsT t) ∧ (reorderAllT t).obj = t.obj) →
+      (objsL (reorderAllL ts)).Perm (objsL ts) → (objsL (reorderAllL (t :: ts))).Perm (objsL (t :: ts)) := by
+    intro t ts ht hts
+    rw [reorderAllL]
+    simp only [objsL]
+    exact List.Perm.append ht.1 hts
+  exact ⟨tree_indT hnode hnil hcons, tree_indL hnode hnil hcons⟩
+
 /-! ### the memory children list after a merge is a permutation of parent's ++ child's -/
 
 /-- mergeNode with the memory list left unsorted (all multiset / set statements are proved for it and transported) -/
@@ -765,7 +794,7 @@ theorem cnt_mergeL (hm : ∀ o co, f (absorb o co) = f co) (ps : List Nat) (rc :
     omega
 end
 
-theorem cnt_ksStep (hm : ∀ o co, f (absorb o co) = f co) (filters : List Nat) (i : Nat) (st : Tree × List (List RObj)) :
+theorem cnt_ksStep (hm : ∀ o co, f (absorb o co) = f co) (filters : List Nat) (i : Nat) (st : Tree × List (List RObj) × Bool) :
     cnt f a (objsT (ksStep filters i st).1) ≤ cnt f a (objsT st.1) := by
   unfold ksStep
   split
@@ -776,7 +805,7 @@ theorem cnt_ksStep (hm : ∀ o co, f (absorb o co) = f co) (filters : List Nat) 
       · exact Nat.le_refl _
   · exact Nat.le_refl _
 
-theorem cnt_ksLoop (hm : ∀ o co, f (absorb o co) = f co) (filters : List Nat) : ∀ (i : Nat) (st : Tree × List (List RObj)),
+theorem cnt_ksLoop (hm : ∀ o co, f (absorb o co) = f co) (filters : List Nat) : ∀ (i : Nat) (st : Tree × List (List RObj) × Bool),
     cnt f a (objsT (ksLoop filters i st).1) ≤ cnt f a (objsT st.1)
   | 0, st => by rw [ksLoop]; exact Nat.le_refl _
   | i + 1, st => by
@@ -787,7 +816,11 @@ theorem cnt_ksLoop (hm : ∀ o co, f (absorb o co) = f co) (filters : List Nat) 
 theorem cnt_keepStructure (hm : ∀ o co, f (absorb o co) = f co) (filters : List Nat) (t : Tree) :
     cnt f a (objsT (keepStructure filters t)) ≤ cnt f a (objsT t) := by
   unfold keepStructure
-  exact cnt_ksLoop f a hm filters _ _
+  simp only []
+  split
+  · rw [cnt_perm f a ((reorderAll_perm.1 _).1)]
+    exact cnt_ksLoop f a hm filters _ _
+  · exact cnt_ksLoop f a hm filters _ _
 
 /-- **whole call**: for every attribute that neither the set clearing nor the merge of complete sets changes, the multiset of
     its values over the objects after the call is included in the multiset before the call (in particular: no object is
@@ -1474,7 +1507,28 @@ theorem ok_merge (ps : List Nat) (rc : Bool) :
     exact ⟨subset_trans this.2.1 hok.1, subset_trans this.2.2 hok.2.1, this.1, hts par hok.2.2.2⟩
   exact ⟨tree_indT hnode hnil hcons, tree_indL hnode hnil hcons⟩
 
-theorem ok_ksStep (filters : List Nat) (i : Nat) (st : Tree × List (List RObj)) (h : okT st.1 = true) :
+theorem ok_reorderAll :
+    (∀ t, okT t = true → okT (reorderAllT t) = true) ∧
+    (∀ l, ∀ par : RObj, okL par l = true → okL par (reorderAllL l) = true) := by
+  have hnode : ∀ o ns ms ios mis, (∀ par : RObj, okL par ns = true → okL par (reorderAllL ns) = true) →
+      (∀ par : RObj, okL par ms = true → okL par (reorderAllL ms) = true) →
+      (okT (.node o ns ms ios mis) = true → okT (reorderAllT (.node o ns ms ios mis)) = true) := by
+    intro o ns ms ios mis hn _ hok
+    rw [reorderAllT]
+    rw [okT_node] at hok ⊢
+    exact ⟨hok.1, hok.2.1, (okL_perm o (fixOrder_perm _)).2 (hn o hok.2.2.1), hok.2.2.2⟩
+  have hnil : ∀ par : RObj, okL par [] = true → okL par (reorderAllL []) = true := by
+    intro par h; rw [reorderAllL]; exact h
+  have hcons : ∀ t ts, (okT t = true → okT (reorderAllT t) = true) →
+      (∀ par : RObj, okL par ts = true → okL par (reorderAllL ts) = true) →
+      (∀ par : RObj, okL par (t :: ts) = true → okL par (reorderAllL (t :: ts)) = true) := by
+    intro t ts ht hts par hok
+    rw [okL_cons] at hok
+    rw [reorderAllL, okL_cons, (reorderAll_perm.1 t).2]
+    exact ⟨hok.1, hok.2.1, ht hok.2.2.1, hts par hok.2.2.2⟩
+  exact ⟨tree_indT hnode hnil hcons, tree_indL hnode hnil hcons⟩
+
+theorem ok_ksStep (filters : List Nat) (i : Nat) (st : Tree × List (List RObj) × Bool) (h : okT st.1 = true) :
     okT (ksStep filters i st).1 = true := by
   unfold ksStep
   split
@@ -1485,7 +1539,7 @@ theorem ok_ksStep (filters : List Nat) (i : Nat) (st : Tree × List (List RObj))
       · exact h
   · exact h
 
-theorem ok_ksLoop (filters : List Nat) : ∀ (i : Nat) (st : Tree × List (List RObj)), okT st.1 = true →
+theorem ok_ksLoop (filters : List Nat) : ∀ (i : Nat) (st : Tree × List (List RObj) × Bool), okT st.1 = true →
     okT (ksLoop filters i st).1 = true
   | 0, st, h => by rw [ksLoop]; exact h
   | i + 1, st, h => by
@@ -1495,7 +1549,10 @@ theorem ok_ksLoop (filters : List Nat) : ∀ (i : Nat) (st : Tree × List (List 
 /-- **level merging preserves SetsOK** -/
 theorem ok_keepStructure (filters : List Nat) (t : Tree) (h : okT t = true) : okT (keepStructure filters t) = true := by
   unfold keepStructure
-  exact ok_ksLoop filters _ _ h
+  simp only []
+  split
+  · exact ok_reorderAll.1 _ (ok_ksLoop filters _ (t, connectLevels t, false) h)
+  · exact ok_ksLoop filters _ (t, connectLevels t, false) h
 
 /-- **the whole call preserves SetsOK** -/
 theorem ok_restrict (t : Topo) (s : CSet) (flags : Nat) (h : okT t.tree = true) : okT (restrict t s flags).1.tree = true := by
@@ -1601,7 +1658,7 @@ theorem fix_merge (p : Params) (ps : List Nat) (rc : Bool) :
     · exact hts (fun y hy => h y (Or.inr hy)) x hx
   exact ⟨tree_indT hnode hnil hcons, tree_indL hnode hnil hcons⟩
 
-theorem fix_ksStep (p : Params) (filters : List Nat) (i : Nat) (st : Tree × List (List RObj))
+theorem fix_ksStep (p : Params) (filters : List Nat) (i : Nat) (st : Tree × List (List RObj) × Bool)
     (h : ∀ x ∈ objsT st.1, shrinkU p x = x) : ∀ x ∈ objsT (ksStep filters i st).1, shrinkU p x = x := by
   unfold ksStep
   split
@@ -1612,7 +1669,7 @@ theorem fix_ksStep (p : Params) (filters : List Nat) (i : Nat) (st : Tree × Lis
       · exact h
   · exact h
 
-theorem fix_ksLoop (p : Params) (filters : List Nat) : ∀ (i : Nat) (st : Tree × List (List RObj)),
+theorem fix_ksLoop (p : Params) (filters : List Nat) : ∀ (i : Nat) (st : Tree × List (List RObj) × Bool),
     (∀ x ∈ objsT st.1, shrinkU p x = x) → ∀ x ∈ objsT (ksLoop filters i st).1, shrinkU p x = x
   | 0, st, h => by rw [ksLoop]; exact h
   | i + 1, st, h => by
@@ -1622,7 +1679,11 @@ theorem fix_ksLoop (p : Params) (filters : List Nat) : ∀ (i : Nat) (st : Tree 
 theorem fix_keepStructure (p : Params) (filters : List Nat) (t : Tree) (h : ∀ x ∈ objsT t, shrinkU p x = x) :
     ∀ x ∈ objsT (keepStructure filters t), shrinkU p x = x := by
   unfold keepStructure
-  exact fix_ksLoop p filters _ _ h
+  simp only []
+  split
+  · intro x hx
+    exact fix_ksLoop p filters _ (t, connectLevels t, false) h x (((reorderAll_perm.1 _).1).mem_iff.1 hx)
+  · exact fix_ksLoop p filters _ (t, connectLevels t, false) h
 
 /-- an object without its complete sets (level merging may or the parent's complete sets into a surviving child) -/
 def noComplete (o : RObj) : RObj := { o with ccpuset := 0, cnodeset := 0 }
